@@ -127,8 +127,15 @@ def make_value(eng, path, name, kind, tag, fi=None):
         # an arbitrary instance of the class layer: inferred type Class (or Token after the one-character collapse),
         # any negation flag, any verbose text
         tname = tag.split(":")[1] if ":" in tag else "Class"
-        base = eng.index.modules["pregex.core.classes"].classes["__Class"]
+        classes = eng.index.modules["pregex.core.classes"].classes
+        base = classes["__Class"]
+        sub = {"Any": "Any", "Word": "AnyWordChar", "ButWord": "AnyButWordChar"}.get(tname)
+        if sub is not None:
+            # an instance of a subclass the algebra treats specially
+            base, tname = classes[sub], "Class"
         obj = new_pregex(eng, path, name, tname, cls=base)
+        if sub in ("AnyWordChar", "AnyButWordChar"):
+            path.fields(obj)[f"_{sub}__is_global"] = z3.Bool(f"global_{name}_{obj.oid}")
         path.fields(obj)["_Class__is_negated"] = z3.Bool(f"neg_{name}_{obj.oid}")
         path.fields(obj)["_Class__verbose"] = SStr([Atom(z3.String(f"verbose_{name}_{obj.oid}"), "opq", {"key": f"verbose_{name}"})])
         path.fields(obj)["_ghost_classarg"] = SStr([Atom(z3.String(f"classarg_{name}_{obj.oid}"), "opq", {"key": f"classarg_{name}"})])
@@ -617,6 +624,11 @@ def sb_VERBOSE(eng, path, p):
     return path.getf(p, "_Class__verbose")
 
 
+def sb_ISANY(eng, path, x):
+    a = eng.index.modules["pregex.core.classes"].classes["Any"]
+    return isinstance(x, Obj) and hasattr(x.cls, "is_subclass_of") and x.cls.is_subclass_of(a)
+
+
 def sb_ISCLS(eng, path, x):
     """x is an instance of the class layer (__Class)"""
     base = eng.index.modules["pregex.core.classes"].classes["__Class"]
@@ -740,7 +752,7 @@ def sb_INFERRED(eng, path, p):
 
 # ---- interval views (class algebra, G8) --------------------------------------------------------------------
 from .values import as_pair, fresh_maplist, range_string, MapList as _ML
-from .symex import SymSet as _SymSet, CharPair as _CP
+from .symex import SymSet as _SymSet, CharPair as _CP, AbsSet as _AbsSet
 
 MAXCP = 0x10FFFF
 
@@ -796,8 +808,22 @@ def _defined_view(eng, path, lst, body_of, tag):
     return v
 
 
+MEMTXT = z3.Function("MEMTXT", StrS, IntS, BoolS)       # code point x is listed by the bracket text t
+
+
+def sb_TV(eng, path, text):
+    """the set of code points a bracket text lists (for '[^...]': the excluded ones) - uninterpreted: what a bracket text
+    means is the text layer's business (assumed contracts of __extract_classes / __modify_classes / __process)"""
+    t = str_term(text)
+    return View(lambda x, t=t: MEMTXT(t, x))
+
+
 def sb_RV(eng, path, lst):
     """view of a list / set of ranges (pairs, 2-lists or range strings)"""
+    if isinstance(lst, _AbsSet):
+        if lst.kind != "range":
+            raise Limitation("RV of an abstract set that is not a set of ranges")
+        return View(lst.mem)
     def body(el, x):
         lo, hi = as_pair(el)
         return z3.And(lo <= x, x <= hi)
@@ -806,6 +832,10 @@ def sb_RV(eng, path, lst):
 
 def sb_CV(eng, path, lst):
     """view of a list / set of single characters"""
+    if isinstance(lst, _AbsSet):
+        if lst.kind != "char":
+            raise Limitation("CV of an abstract set that is not a set of characters")
+        return View(lst.mem)
     return _defined_view(eng, path, lst, lambda el, x: zterm(el.code) == x, "c")
 
 
@@ -845,6 +875,8 @@ def sb_VEMPTY(eng, path, a):
 
 def sb_WFR(eng, path, lst):
     """every element of a range list is a well-formed range of code points"""
+    if isinstance(lst, _AbsSet):
+        return lst.kind == "range"       # representation invariant of abstract sets: their items are well formed
     n, g = _seq_of(lst)
     if z3.is_int_value(zterm(n)) and zterm(n).as_long() == 0:
         return True
@@ -854,6 +886,8 @@ def sb_WFR(eng, path, lst):
 
 
 def sb_WFC(eng, path, lst):
+    if isinstance(lst, _AbsSet):
+        return lst.kind == "char"
     n, g = _seq_of(lst)
     if z3.is_int_value(zterm(n)) and zterm(n).as_long() == 0:
         return True
@@ -1055,6 +1089,55 @@ def ret_opaque_other(eng, path, env, fi, contract):
     return path.memo[key]
 
 
+def _fresh_mem(eng, tag):
+    f = z3.Function(f"mem_{tag}!{eng.fresh_id()}", IntS, BoolS)
+    return lambda x, f=f: f(x)
+
+
+def ret_extract_classes(eng, path, env, fi, contract):
+    """__extract_classes(text, unescape=True) (assumed): a set of well-formed range strings and a set of single characters,
+    all unescaped, that together list exactly what the bracket text lists"""
+    key = ("extract", str_key(env["pattern"]))
+    if key not in path.memo:
+        from .symex import AbsSet
+        r, c = _fresh_mem(eng, "xr"), _fresh_mem(eng, "xc")
+        t = str_term(env["pattern"])
+        x = z3.Int("x!xt")
+        path.assume(z3.ForAll([x], MEMTXT(t, x) == z3.Or(r(x), c(x)), patterns=[MEMTXT(t, x)]))
+        path.memo[key] = (AbsSet("range", r), AbsSet("char", c))
+    return path.memo[key]
+
+
+def ret_modify_classes(eng, path, env, fi, contract):
+    """__modify_classes(items, escape=True) (assumed): the items re-escaped; printed between brackets they list exactly what
+    the items denote"""
+    from .symex import AbsSet
+    src = env["classes"]
+    if not isinstance(src, AbsSet):
+        raise Limitation("__modify_classes on a concrete set")
+    j = SStr([Atom(z3.String(f"joined!{eng.fresh_id()}"), "opq", {"key": f"joined{eng.fresh_id()}"})])
+    x = z3.Int("x!mc")
+    for opening in ("[", "[^"):
+        t = str_term(mkstr(opening, j, "]"))
+        path.assume(z3.ForAll([x], MEMTXT(t, x) == src.mem(x), patterns=[MEMTXT(t, x)]))
+    return AbsSet("esc", src.mem, joined=j)
+
+
+def ret_fresh_abs(eng, path, env, fi, contract):
+    """a proved function of the interval core used as a callee: fresh abstract sets of the declared shape that satisfy its
+    post-condition"""
+    from .symex import AbsSet
+    from .vc import eval_spec
+    shape = contract["result_shape"]
+    mk = lambda kind: AbsSet(kind, _fresh_mem(eng, "res" + kind[0]))
+    res = mk(shape) if isinstance(shape, str) else tuple(mk(k) for k in shape)
+    env2 = dict(env)
+    env2["result"] = res
+    g = eng.truth(eval_spec(eng, contract["ensures"], env2, path, fi), path)
+    path.assume(zterm(g) if g is not True else True)
+    return res
+
+
 def ret_class_init(eng, path, env, fi, contract):
     """__Class.__init__ (assumed): the instance becomes an arbitrary non-empty pattern of inferred type Class; the text it
     was given and the negation flag are remembered (ghost / private fields)"""
@@ -1064,6 +1147,12 @@ def ret_class_init(eng, path, env, fi, contract):
     path.setf(me, "_Pregex__pattern", path.fields(src)["_Pregex__pattern"])
     path.setf(me, "_Class__is_negated", env["is_negated"])
     path.fields(me)["_ghost_classarg"] = env["pattern"]
+    # __process (assumed): the verbose text lists exactly what the given bracket text lists
+    v = z3.String(f"verbose_init!{eng.fresh_id()}")
+    x = z3.Int("x!vi")
+    t = str_term(env["pattern"])
+    path.assume(z3.ForAll([x], MEMTXT(v, x) == MEMTXT(t, x), patterns=[MEMTXT(v, x)]))
+    path.setf(me, "_Class__verbose", SStr([Atom(v, "opq", {"key": f"verbose{me.oid}"})]))
     return None
 
 
@@ -1085,7 +1174,8 @@ def ret_opaque_init(eng, path, env, fi, contract):
     return None
 
 
-RETURNS = {"class_wrapped": ret_class_wrapped, "class_op": ret_class_op, "class_ctor": ret_class_ctor, "class_init": ret_class_init, "opaque_class": ret_opaque_class, "opaque_other": ret_opaque_other, "opaque_init": ret_opaque_init, "wrapped_init": ret_wrapped_init, "split_range": ret_split_range, "none": ret_none, "infer": ret_infer, "initpregex": ret_initpregex, "setcompiled": ret_setcompiled, "to_pregex": ret_to_pregex, "pregex": ret_pregex, "expr": ret_expr, "newpregex": ret_newpregex}
+RETURNS = {"extract_classes": ret_extract_classes, "modify_classes": ret_modify_classes, "fresh_abs": ret_fresh_abs,
+           "class_wrapped": ret_class_wrapped, "class_op": ret_class_op, "class_ctor": ret_class_ctor, "class_init": ret_class_init, "opaque_class": ret_opaque_class, "opaque_other": ret_opaque_other, "opaque_init": ret_opaque_init, "wrapped_init": ret_wrapped_init, "split_range": ret_split_range, "none": ret_none, "infer": ret_infer, "initpregex": ret_initpregex, "setcompiled": ret_setcompiled, "to_pregex": ret_to_pregex, "pregex": ret_pregex, "expr": ret_expr, "newpregex": ret_newpregex}
 
 
 # ------------------------------------------------------------------------------------------------------
